@@ -21,9 +21,11 @@ def _cases(r):
 
 def _cause(t):
     """the input class a v1.5 call belongs to (part of the violation key, so that one defect has one key)"""
+    k = len(t["nbytes"])
+    if t["fam"] == "rt15" and k == 11:
+        return " (k = 11, the smallest modulus for which RFC 8017 defines the scheme)"
     if t["fam"] != "v15dec":
         return ""
-    k = len(t["nbytes"])
     if t["expected"] > k - 11:
         return " (expected_pt_len larger than k-11)"
     if t["skind"] != "bytes" or len(t["sentinel"]) > k:
@@ -57,6 +59,7 @@ def run(ctx):
     cases = []
     for r in rs:
         cases += _cases(r)
+    cases.sort(key=lambda c: json.dumps(c, sort_keys=True))      # TLC's workers print in any order; the seeded sampling must not depend on it
     fams = {}
     for c in cases:
         fams[c["fam"]] = fams.get(c["fam"], 0) + 1
@@ -72,8 +75,8 @@ def run(ctx):
     ctx.extra["patterns_enumerated_by_tlc"] = fams
     ctx.extra["v15_calls_enumerated_by_tlc"] = sum(len(c["combos"]) for c in cases if c["fam"] == "v15")
     # 2. spec -> code: every pattern goes through the real decrypt methods (stub key: any block at any k; real RSA keys: a sample)
-    inp = {"cases": cases, "v15_small_keep": 0.3 if quick else 1.0, "v15_real_keep": 0.06 if quick else 0.3,
-           "oaep_keep": 0.06 if quick else 0.8, "rsa_per_key": 30 if quick else 400}
+    inp = {"cases": cases, "v15_small_keep": [1.0, 0.2] if quick else [1.0, 1.0], "v15_real_keep": [0.4, 0.03] if quick else [1.0, 0.25],
+           "oaep_keep": 0.04 if quick else 0.8, "rsa_per_key": 30 if quick else 400}
     traces = ctx.drive("c07_pkcs1", [], inp=inp, timeout=3000)
     # 3. code -> spec: TLC decodes every recorded block with the transcribed RFC 8017 rules and judges the real outcome
     verdicts = ctx.validate("Pkcs1Trace", traces, family="pkcs1", timeout=3000)
@@ -134,6 +137,8 @@ def run(ctx):
     checks.append((g7, lambda t: dict(t, exc="none", okind="bytes", out=[1]), "v15dec: wrong ciphertext length accepted"))
     g8 = good(lambda t: t["fam"] == "oaepdec" and t["src"] != "stub" and t["exc"] == "none")
     checks.append((g8, lambda t: dict(t, ct=[255] * len(t["ct"]), has_wit=False), "oaepdec: ciphertext not below the modulus accepted"))
+    g9 = good(lambda t: t["fam"] == "v15dec" and t["has_wit"] and t["reached"] and len(t["q1"]) > 2)
+    checks.append((g9, lambda t: dict(t, q1=[t["q1"][0] ^ 1] + t["q1"][1:]), "v15dec: a quotient witness of EM^3 = c (mod n)"))
     with ThreadPoolExecutor(max_workers=5) as ex:
         list(ex.map(lambda c: ctx.binding_selfcheck("Pkcs1Trace", c[0], c[1], c[2]), checks))
     ctx.rule = ("encoded messages = the pattern classes enumerated by TLC from mc/Pkcs1MC (v1.5, k = 12..16 and 64/65/96/128: first two octets over "
@@ -142,7 +147,12 @@ def run(ctx):
                 "64/128, toy MGF and MGF1, and with SHA-1/SHA-256 at k = 64/65/66/96/128: Y in {00,01,ff}, lHash' flipped at each position, first "
                 "non-zero DB octet 01/02/ff at each position or absent, tails with a later 01), offered through a stub key at every size and as "
                 "c = EM^e mod n to five real keys (512, 513, 768, 1023, 1024 bits); round trips for message lengths 0..max+1; ciphertexts of "
-                "wrong length, equal to n, n+1, ff..ff; distinct = distinct (family, path, block, sentinel, expected length | hash, MGF, label)")
+                "wrong length, equal to n, n+1, ff..ff; replayed: " +
+                ("a seed-dependent sample (every (sentinel, expected length) combination of the blocks beginning 00 02 at k <= 16 and 20% of the "
+                 "other blocks', 40% / 3% at real sizes, 4% of the SHA DB patterns, 30 blocks per real key and scheme)" if quick else
+                 "everything at k <= 16, every combination of the blocks beginning 00 02 and a seed-dependent 25% of the others at real sizes, 80% of the "
+                 "SHA DB patterns, 400 blocks per real key and scheme") +
+                "; distinct = distinct (family, path, block, sentinel, expected length | hash, MGF, label)")
     ctx.assume("timing behaviour (constant-time decoding, Bleichenbacher / Manger oracles) is out of scope: only returned values and exception classes are observed")
     ctx.assume("on the real-RSA path the judge decodes the block that the real key._decrypt_to_bytes returned for the offered ciphertext (logged by "
                "wrapping the key object); that this block is the RSA decryption of the ciphertext is certified in TLC only for the e = 3 keys "
